@@ -87,16 +87,17 @@ Mix ==
                              "KnockOutModelGenes", "RemoveGenes", "RenameGene", "RenameReaction", "RenameMetabolite",
                              "SetObjective", "SetObjCoef", "SetDirection", "SetMedium", "GetMedium", "SwitchSolver",
                              "AddUserCons", "AddUserVar", "RemoveUserCons", "RemoveUserVar", "AddGroup", "RemoveGroup",
-                             "Copy", "Enter", "Exit", "RoundTrip", "DetachedSetBounds", "RxnArith", "Merge", "SaveDoc", "LoadDoc">>
+                             "Copy", "Enter", "Exit", "RoundTrip", "DetachedSetBounds", "RxnArith", "Merge", "SaveDoc", "LoadDoc", "BuildFromString", "BuildFromString",
+                             "SetFunctional", "Repair">>
     [] Profile = "ctx" -> <<"Enter", "Enter", "Enter", "Exit", "Exit", "Exit", "AddReactions", "RemoveReactions",
                             "RemoveReactions", "AddMetabolites", "RemoveMetabolites", "AddBoundary", "RxnAddMetabolites",
                             "RxnAddMetabolites", "RxnSubtractMetabolites", "RxnIMul", "RxnIAdd", "RxnISub", "SetLB", "SetUB",
                             "SetBounds", "RxnKnockOut", "SetRule", "GeneKnockOut", "KnockOutModelGenes", "RemoveGenes",
                             "RenameGene", "SetObjective", "SetObjCoef", "SetDirection", "SetMedium", "SwitchSolver",
                             "AddUserCons", "AddUserVar", "RemoveUserCons", "RemoveUserVar", "Helper", "Helper",
-                            "DetachedSetBounds", "DetachedSetBounds", "Copy", "Merge">>
+                            "DetachedSetBounds", "DetachedSetBounds", "Copy", "Merge", "BuildFromString", "SetFunctional">>
     [] Profile = "ko" -> <<"GeneKnockOut", "GeneKnockOut", "GeneKnockOut", "KnockOutModelGenes", "KnockOutModelGenes",
-                           "RxnKnockOut", "SetRule", "SetRule", "Enter", "Exit", "SetBounds", "AddReactions">>
+                           "RxnKnockOut", "SetRule", "SetRule", "Enter", "Exit", "SetBounds", "AddReactions", "SetFunctional">>
     [] Profile = "copy" -> <<"Copy", "Copy", "AddReactions", "RemoveReactions", "RemoveMetabolites", "RxnAddMetabolites",
                              "RxnIMul", "SetBounds", "SetRule", "GeneKnockOut", "RemoveGenes", "RenameGene", "RenameReaction",
                              "RenameMetabolite", "SetObjective", "SetDirection", "SetMedium", "AddUserCons", "AddGroup",
@@ -167,6 +168,9 @@ DrawOp(r, S) ==
     [] k = "SetUB" -> base @@ [r |-> rx, v |-> Pick(HiVals, d[8])]
     [] k = "SetBounds" -> base @@ [r |-> rx, lo |-> Pick(LoVals, d[8]), hi |-> Pick(HiVals, d[9])]
     [] k = "RxnKnockOut" -> base @@ [r |-> rx]
+    [] k = "BuildFromString" -> base @@ [r |-> rx, d |-> DrawD(C, SubSeq(d, 8, 12)), arrow |-> Pick(<<"fwd", "rev", "both">>, d[13])]
+    [] k = "SetFunctional" -> base @@ [g |-> gn, b |-> d[8] % 2 = 0]
+    [] k = "Repair" -> base
     [] k = "RxnArith" -> base @@ [r |-> rx, q |-> rx2, kind |-> Pick(<<"copy", "add", "sub", "mul">>, d[8]), k |-> Pick(<<2, -1, 3, -2>>, d[9])]
     [] k = "DetachedSetBounds" -> base @@ [r |-> PickPresent(RxSeq, RxU \ C.rxns, d[3]), lo |-> Pick(LoVals, d[8]), hi |-> Pick(HiVals, d[9])]
     [] k = "SetRule" -> base @@ [r |-> rx, rule |-> Pick(RuleU, d[8]), form |-> d[9] % 2]
